@@ -51,7 +51,13 @@ func NewInterceptedHeader(arg *ArgInterceptedBlockHeader) (*InterceptedHeader, e
 		validityAttester:  arg.ValidityAttester,
 		epochStartTrigger: arg.EpochStartTrigger,
 	}
-	inHdr.processFields(arg.HdrBuff)
+	// the hash must identify the content, not the particular byte string received:
+	// it is computed over the canonical re-encoding of the decoded value
+	canonicalBuff, err := arg.Marshalizer.Marshal(hdr)
+	if err != nil {
+		return nil, err
+	}
+	inHdr.processFields(canonicalBuff)
 
 	return inHdr, nil
 }
